@@ -52,6 +52,37 @@ pub fn long_paths() -> Vec<Vec<u8>> {
 	out.into_iter().map(|s| s.into_bytes()).collect()
 }
 
+/// Tokens for systematic products of component text: letters in both cases and their encoded
+/// spellings (hex digits in both cases), ill-formed octets, every delimiter of the surrounding
+/// syntax literally and encoded, sub-delimiters on both sides of '/' in byte order.
+pub fn component_tokens(f: Family, level: u8) -> Vec<Vec<u8>> {
+	let mut x = vec!["A", "a", "%41", "%4A", "%4a", "%C3%A9", "%c3%a9", "%FF", "-", ".", "%2E", ":", "%3A", "@", "%40", "/", "%2F", "[", "%5B", "+"];
+	if level >= 1 {
+		x.extend(["%61", "J", "%C3", "!", "?", "%3F", "]", "%5D", "%25", "%2B", "1", "%2e", "~"]);
+	}
+	if f == Family::Iri {
+		x.push("é");
+		if level >= 1 {
+			x.push("\u{10000}");
+		}
+	}
+	v(&x)
+}
+
+/// All texts of at most two tokens.
+fn products2(toks: &[Vec<u8>]) -> Vec<Vec<u8>> {
+	let mut out = vec![Vec::new()];
+	for a in toks {
+		out.push(a.clone());
+		for b in toks {
+			let mut t = a.clone();
+			t.extend_from_slice(b);
+			out.push(t);
+		}
+	}
+	out
+}
+
 pub fn domain(f: Family, k: Kind, refs: &Refs, level: u8) -> Vec<Vec<u8>> {
 	let sp = pct_spellings(f, level);
 	let mut out: Vec<Vec<u8>> = match k {
@@ -95,10 +126,16 @@ pub fn domain(f: Family, k: Kind, refs: &Refs, level: u8) -> Vec<Vec<u8>> {
 				x.extend(v(&["é/b", "%C3%A9/b"]));
 			}
 			x.extend(long_paths());
+			// systematic part: PATH(2) (thorough: PATH(3)) over segments in several spellings
+			let mut segs = vec!["", ".", "..", "a", "A", "%61", "a-b", "a!b", "%2E", "%2e%2e", "a:b", "%FF"];
+			if f == Family::Iri {
+				segs.push("é");
+			}
+			x.extend(domains::paths(&v(&segs), if level >= 1 { 3 } else { 2 }));
 			x
 		}
 		Kind::Authority => {
-			let us = ov(&[None, Some(""), Some("u"), Some("%75"), Some("%FF")]);
+			let us = ov(&[None, Some(""), Some("u"), Some("%75"), Some("%FF"), Some("u:p"), Some("u%3Ap")]);
 			// "%5B%3A%3A1%5D": reg-name decoding to "[::1]"; "u%40h", "h%3A80": one host whose decoding
 			// looks like user-info / port syntax (equal to nothing that really has those components)
 			let hs = v(&["", "h", "%68", "H", "[::1]", "[::01]", "%C1%81", "A", "%5B%3A%3A1%5D", "u%40h", "h%3A80"]);
@@ -155,6 +192,8 @@ pub fn domain(f: Family, k: Kind, refs: &Refs, level: u8) -> Vec<Vec<u8>> {
 		}
 	};
 	if matches!(k, Kind::Segment | Kind::UserInfo | Kind::Host | Kind::Query | Kind::Fragment) {
+		// systematic part: every text of <= 2 tokens that is valid for the component
+		out.extend(products2(&component_tokens(f, level)));
 		out.push("k".repeat(70).into_bytes());
 		out.push(format!("{}%6B", "k".repeat(69)).into_bytes());
 		out.push(format!("{}K", "k".repeat(69)).into_bytes());
@@ -169,7 +208,7 @@ fn run_prop(ctx: &Ctx, prop: &'static str) -> Report {
 	let refs = Refs::new(&ctx.root);
 	let mut total = Report::new();
 	total.rule = format!(
-		"per type (20 validated types): a domain of SPELLINGS (several texts per abstract value: A/%41, é/%C3%A9/%c3%a9, a/b vs a/./b vs a/x/../b, ports 80/080, schemes s/S, hosts [::1]/[::01], present-but-empty vs absent, ill-formed octets %FF, overlong %C1%81, truncated %C3, surrogate %ED%A0%80) combined through the reference composition; ALL ordered pairs of each domain{}; non-trivial = distinct ordered pair (type, a, b)",
+		"per type (20 validated types): a domain of SPELLINGS (several texts per abstract value: A/%41, é/%C3%A9/%c3%a9, a/b vs a/./b vs a/x/../b, ports 80/080, schemes s/S, hosts [::1]/[::01], present-but-empty vs absent, every component text of <= 2 tokens over letters / encoded letters in both hex cases / literal and encoded delimiters, PATH(2|3) over segment spellings, ill-formed octets %FF, overlong %C1%81, truncated %C3, surrogate %ED%A0%80) combined through the reference composition; ALL ordered pairs of each domain{}; non-trivial = distinct ordered pair (type, a, b)",
 		if prop == "C08" { ", all triples of a sub-domain for transitivity of cmp, Borrow views and collection lookups per value" } else { " incl. cross-type impls" }
 	);
 	let level = ctx.pick(0u8, 1u8);
